@@ -64,6 +64,7 @@ type c15Plan struct {
 	SlowChunk   int
 	SlowSleepMs int
 	OneTrack    bool // rtsp / wsrtsp: SETUP only the first track of an audio+video stream
+	Chatty      bool // rtmp: while stalled the player sends ping requests and a createStream command (replies are queued behind the media)
 }
 
 type c15Client struct {
@@ -146,6 +147,9 @@ func tcpPeerSendQueue(conn net.Conn) (int, bool) {
 	}
 	return 0, false
 }
+
+// timestamps of the ping requests a chatty player sends; the responses must echo them in order
+var c15PingStamps = []uint32{0x11223344, 0x55667788}
 
 func c15DialSmall(addr string) (net.Conn, error) {
 	var conn net.Conn
@@ -460,9 +464,28 @@ func (cl *c15Client) run(frame *int64) {
 	case "stall":
 		<-cl.quit
 	case "stall-resume":
-		select {
-		case <-cl.quit:
-		case <-time.After(time.Duration(p.StallMs) * time.Millisecond):
+		if p.Chatty && cl.rc != nil {
+			// well into the stall (lal's writer is blocked by now) the player talks: two ping requests and
+			// a createStream. lal's replies are queued behind the media that is waiting.
+			select {
+			case <-cl.quit:
+			case <-time.After(time.Duration(p.StallMs) * time.Millisecond * 2 / 3):
+			}
+			cl.conn.SetWriteDeadline(time.Now().Add(3 * time.Second))
+			for _, ts := range c15PingStamps {
+				cl.rc.Send(ref.RtmpMsg{Csid: 2, TypeID: 4, StreamID: 0, Payload: []byte{0, 6, byte(ts >> 24), byte(ts >> 16), byte(ts >> 8), byte(ts)}}, 0)
+				time.Sleep(30 * time.Millisecond)
+			}
+			cl.rc.SendCommand(3, 0, ref.AmfStr("createStream"), ref.AmfNum(77), ref.AmfNul())
+			select {
+			case <-cl.quit:
+			case <-time.After(time.Duration(p.StallMs) * time.Millisecond / 3):
+			}
+		} else {
+			select {
+			case <-cl.quit:
+			case <-time.After(time.Duration(p.StallMs) * time.Millisecond):
+			}
 		}
 		for open && !cl.quitting() {
 			_, open = cl.readSome(16384, 100*time.Millisecond)
@@ -730,6 +753,13 @@ func c15Run(c *fw.Ctx, i int) {
 		for _, kd := range []string{"rtsp", "wsrtsp"} {
 			plans = append(plans, c15Plan{Kind: kd, Mode: "stall", Stream: "a", StallAt: []int{1, 5000, 60000}[r.Intn(3)], OneTrack: true})
 		}
+	}
+	// RTMP players that talk while stalled (ping requests, createStream): lal's replies wait in the
+	// queue behind the media; when the player reads again they must be whole and be the right ones
+	// (odd cases only: with the 1 s write timeout of the even cases the player would be gone before it
+	// reads again; here the writer blocks after ≈0.9 s, the player talks at ≈1.3 s and reads on at ≈2 s)
+	for j := 0; j < 2 && i%2 == 1; j++ {
+		plans = append(plans, c15Plan{Kind: "rtmp", Mode: "stall-resume", Stream: "a", StallAt: []int{5000, 60000}[j], StallMs: 1900 + r.Intn(300), Chatty: true})
 	}
 	c.Describe("k=%d write_timeout_ms=%d queue=%d plans=%+v", k, wto, queue, plans)
 
@@ -1242,6 +1272,8 @@ func c15CheckStream(c *fw.Ctx, cl *c15Client, pubs []*c15Pub, plans interface{})
 	case "rtmp":
 		rd := bytes.NewReader(stream)
 		var tags []ref.FlvTag
+		var pongs []uint32
+		results := 0
 		for {
 			pos := len(stream) - rd.Len()
 			m, err := cl.rc.R.ReadMsg(rd)
@@ -1253,6 +1285,17 @@ func c15CheckStream(c *fw.Ctx, cl *c15Client, pubs []*c15Pub, plans interface{})
 				bad("chunk", "at offset %d: %v", pos, err)
 				return
 			}
+			if p.Chatty && m.TypeID == 4 && len(m.Payload) >= 6 && m.Payload[0] == 0 && m.Payload[1] == 7 {
+				pongs = append(pongs, binary.BigEndian.Uint32(m.Payload[2:6]))
+			}
+			if p.Chatty && m.TypeID == 20 {
+				if vs, e := ref.AmfDecodeAll(m.Payload); e == nil && len(vs) >= 2 && vs[0].Str == "_result" && vs[1].Num == 77 {
+					results++
+				} else if e != nil {
+					bad("reply-content", "a command message at offset %d does not decode: %v (% x)", pos, e, m.Payload[:min(len(m.Payload), 32)])
+					return
+				}
+			}
 			switch m.TypeID {
 			case 8, 9:
 				tags = append(tags, ref.FlvTag{Type: m.TypeID, Data: m.Payload})
@@ -1260,6 +1303,16 @@ func c15CheckStream(c *fw.Ctx, cl *c15Client, pubs []*c15Pub, plans interface{})
 			default:
 				bad("msg-type", "message type %d (len %d) at offset %d", m.TypeID, len(m.Payload), pos)
 				return
+			}
+		}
+		if p.Chatty && (len(pongs) > 0 || results > 0) {
+			// replies that did arrive are the ones lal built: ping responses echo the request's timestamp
+			c.Count("chatty_replies_checked", len(pongs)+results)
+			for n, ts := range pongs {
+				if n >= len(c15PingStamps) || ts != c15PingStamps[n] {
+					bad("reply-content", "ping response %d echoes timestamp %#x, the requests carried %#x in that order (replies queued by reference to one buffer that the next reply overwrites)", n, ts, c15PingStamps)
+					return
+				}
 			}
 		}
 		u, g := c15CheckTags(c, who, tags, pb.ix, pb.msgs, false, 0, p)
